@@ -23,6 +23,7 @@ from vf.sched import Sched
 from vf.symx import sand, snot, sor
 
 LEVEL = "other"
+TECHNIQUE = ('symx: symbolic schedules and pause durations over the real FileLock (FakeOS flock model) and the real S3 CAS lock (FakeS3) with lease ghost state + CrossHair single steps on the polling provider')
 EXPLANATION = (
     "Bounded symbolic execution (symx/z3) of the real lock code under a baton scheduler: all interleavings of 2-3 "
     "contenders within the pre-emption bound, symbolic pause durations and clock; mutual exclusion (w.r.t. valid "
